@@ -77,3 +77,60 @@ package goa
 //@   ensures* hist.unchanged.right: both ==> forall i int :: 0 <= i && i < oN ==> r.history[eN + i] != nil && r.history[eN + i].Message == ite(oHist, old(o.history[i].Message), oMsg0) && r.history[eN + i].Name == ite(oHist, old(o.history[i].Name), oName0)
 //@   ensures* causes: both ==> forall x Iface :: (reachE(eErr0, x) || reachE(oErr0, x)) ==> reachE(r.err, x)
 //@   ensures* nil.frame: !both ==> forall p *ServiceError :: allocated(p) ==> p.Message == old(p.Message) && p.Name == old(p.Name) && p.history == old(p.history)
+
+// ---- format and pattern validators (C17) ------------------------------------------------
+
+//@ func validateUUID
+//@   ensures verdict: (result == nil) == (uuidOk(uuid) && uuidVariant(uuidVal(uuid)) == 1)
+//@   modifies nothing
+
+//@ macro invalidFormat(r, n) = r != nil && asSE(r) != 0 && ptr(*ServiceError, asSE(r)).Name == "invalid_format" && ptr(*ServiceError, asSE(r)).Field != nil && load(ptr(*ServiceError, asSE(r)).Field) == n
+
+//@ func ValidateFormat
+//@   property C17
+//@   ensures* date: f == "date" ==> (result == nil) == timeOk("2006-01-02", val)
+//@   ensures* datetime: f == "date-time" ==> (result == nil) == timeOk("2006-01-02T15:04:05Z07:00", val)
+//@   ensures* uuid: f == "uuid" ==> (result == nil) == (uuidOk(val) && uuidVariant(uuidVal(val)) == 1)
+//@   ensures* email: f == "email" ==> (result == nil) == mailOk(val)
+//@   ensures* hostname: f == "hostname" ==> (result == nil) == reMatches(hostnameRegex, val)
+//@   ensures* ip: f == "ip" ==> (result == nil) == ipOk(val)
+//@   ensures* ipv4: f == "ipv4" ==> (result == nil) == (ipOk(val) && reMatches(ipv4Regex, val))
+//@   ensures* ipv6: f == "ipv6" ==> (result == nil) == (ipOk(val) && !reMatches(ipv4Regex, val))
+//@   ensures* uri: f == "uri" ==> (result == nil) == uriOk(val)
+//@   ensures* mac: f == "mac" ==> (result == nil) == macOk(val)
+//@   ensures* cidr: f == "cidr" ==> (result == nil) == cidrOk(val)
+//@   ensures* regexp: f == "regexp" ==> (result == nil) == reOk(val)
+//@   ensures* json: f == "json" ==> (result == nil) == jsonOk(val)
+//@   ensures* rfc1123: f == "rfc1123" ==> (result == nil) == timeOk("Mon, 02 Jan 2006 15:04:05 MST", val)
+//@   ensures* unknown: f != "date" && f != "date-time" && f != "uuid" && f != "email" && f != "hostname" && f != "ip" && f != "ipv4" && f != "ipv6" && f != "uri" && f != "mac" && f != "cidr" && f != "regexp" && f != "json" && f != "rfc1123" ==> result != nil
+//@   ensures* named: result != nil && (f == "date" || f == "date-time" || f == "uuid" || f == "email" || f == "hostname" || f == "ip" || f == "ipv4" || f == "ipv6" || f == "uri" || f == "mac" || f == "cidr" || f == "regexp" || f == "json" || f == "rfc1123") ==> invalidFormat(result, name)
+
+//@ lemma c17_ip_family property C17: forall p Bool, r4 Bool :: (p == ((p && r4) || (p && !r4))) && !((p && r4) && (p && !r4))
+
+//@ func ValidatePattern
+//@   property C17 C20
+//@   requires knownPatterns != nil && knownPatternsLock != nil
+//@   requires select(lockHeld, knownPatternsLock) == 0
+//   -- cache invariant: every cached entry is the compiled form of its key
+//@   requires forall q String :: inMap(knownPatterns, q) ==> knownPatterns[q] == ptr(*regexp.Regexp, compileRe(q))
+//@   ensures* cache.invariant: forall q String :: inMap(knownPatterns, q) ==> knownPatterns[q] == ptr(*regexp.Regexp, compileRe(q))
+//@   ensures* verdict: (result == nil) == reMatches(compileRe(p), val)
+//@   ensures* cached: inMap(knownPatterns, p)
+//@   ensures* unlocked: select(lockHeld, knownPatternsLock) == 0
+//@   at lookup 1 assert* read.locked: select(lockHeld, knownPatternsLock) >= 1
+//@   at mapupdate 1 assert* write.locked: select(lockHeld, knownPatternsLock) == 2
+
+// regex-defined formats against a specification language (SMT regular expressions)
+//@ smt (define-fun reAlnum () RegLan (re.union (re.range "a" "z") (re.range "A" "Z") (re.range "0" "9")))
+//@ smt (define-fun reLabel () RegLan (re.union reAlnum (re.++ reAlnum ((_ re.loop 0 61) (re.union reAlnum (str.to_re "-"))) reAlnum)))
+//@ smt (define-fun hostSpec () RegLan (re.++ reLabel (re.* (re.++ (str.to_re ".") reLabel))))
+//@ smt (define-fun quadSpec () RegLan (re.++ ((_ re.loop 1 3) (re.range "0" "9")) (str.to_re ".") ((_ re.loop 1 3) (re.range "0" "9")) (str.to_re ".") ((_ re.loop 1 3) (re.range "0" "9")) (str.to_re ".") ((_ re.loop 1 3) (re.range "0" "9"))))
+//   the hostname expression as it was when the finding below was recorded: ^A|B$ (ungrouped alternation)
+//@ smt (define-fun hostPinned () RegLan (re.union (re.++ reAlnum ((_ re.loop 0 61) (re.union reAlnum (str.to_re "-"))) reAlnum re.all) (re.++ re.all (re.union (re.range "a" "z") (re.range "A" "Z")))))
+
+//@ lemma c17_ipv4_regex_is_dotted_quads property C17: forall s String :: inRe(s, goRegex(ipv4Regex)) == inRe(s, quadSpec())
+//@ lemma c17_hostname_sound property C17: forall s String :: inRe(s, goRegex(hostnameRegex)) ==> inRe(s, hostSpec())
+//@ lemma c17_hostname_complete property C17: forall s String :: inRe(s, hostSpec()) ==> inRe(s, goRegex(hostnameRegex))
+//   outside the recorded finding: nothing is accepted that the pinned expression rejected, nothing rejected that it accepted
+//@ lemma c17_hostname_no_new_accepts property C17: forall s String :: inRe(s, goRegex(hostnameRegex)) && !inRe(s, hostPinned()) ==> inRe(s, hostSpec())
+//@ lemma c17_hostname_no_new_rejects property C17: forall s String :: inRe(s, hostSpec()) && inRe(s, hostPinned()) ==> inRe(s, goRegex(hostnameRegex))
